@@ -97,6 +97,12 @@ pub fn generate(r: &mut Rng, tier: Tier, run_index_hint: u64) -> Scenario {
                 world.special.insert(p, Special::Symlink("does-not-exist.s".into()));
                 note.push_str("dangling-symlink ");
             }
+            3 if run_index_hint % 8 == 0 => {
+                // the input can be read once only: a named pipe in place of the base file
+                // (no system-call faults on top: the feeder delivers once)
+                world.special.insert(world.base.clone(), Special::Fifo);
+                note.push_str("named-pipe ");
+            }
             2 if !fpaths.is_empty() => {
                 let p = r.pick(&fpaths).clone();
                 let name = p.rsplit('/').next().unwrap_or("x").to_string();
@@ -137,7 +143,7 @@ pub fn generate(r: &mut Rng, tier: Tier, run_index_hint: u64) -> Scenario {
             }
         }
         // a base file whose name is not valid UTF-8 (legal on Linux), or is otherwise unusual
-        let raw_base_name = if r.chance(1, 16) {
+        let raw_base_name = if r.chance(1, 16) && !world.special.values().any(|s| matches!(s, Special::Fifo)) {
             note.push_str("odd-base-name ");
             Some(crate::t2::hex(match r.below(4) {
                 0 => b"prog\xff.s".as_slice(),
@@ -227,10 +233,14 @@ pub fn check(scn: &Scenario, stats: &mut Stats) -> Vec<Violation> {
             return out;
         };
         let mut fired_any = false;
+        let fifos: Vec<(String, String)> = scn.world.special.iter().filter(|(_, s)| matches!(s, Special::Fifo)).map(|(p, _)| (p.clone(), scn.world.files.get(p).cloned().unwrap_or_default())).collect();
+        if !fifos.is_empty() {
+            stats.inc("fault:fs:named-pipe-as-input");
+        }
         for flags in &spec.modes {
             let force_color = spec.force_color && !flags.iter().any(|f| f == "--no-color");
             let cpu = if chars > 8_000 { 120 } else { 10 };
-            let Ok(run) = t2::run_rva(&t2::RvaCall { sandbox: &sb, base: &scn.world.base, flags, entropy: scn.entropy[0], plan: &spec.plan, profile: &spec.profile, force_color, cpu_seconds: cpu, raw_base: spec.raw_base_name.as_deref().map(t2::unhex), stdout_fault: spec.stdout_fault.as_deref() }) else {
+            let Ok(run) = t2::run_rva(&t2::RvaCall { sandbox: &sb, base: &scn.world.base, flags, entropy: scn.entropy[0], plan: &spec.plan, profile: &spec.profile, force_color, cpu_seconds: cpu, raw_base: spec.raw_base_name.as_deref().map(t2::unhex), stdout_fault: spec.stdout_fault.as_deref(), fifos: fifos.clone() }) else {
                 stats.inc("harness:spawn_failed");
                 return out;
             };
@@ -271,7 +281,9 @@ pub fn check(scn: &Scenario, stats: &mut Stats) -> Vec<Violation> {
                 // panic location from stderr, if any
                 let loc = run.stderr.lines().find(|l| l.contains("panicked at")).map(|l| l.split("panicked at ").nth(1).unwrap_or("").trim_end_matches(':').to_string()).unwrap_or_default();
                 let loc = loc.rsplit_once(':').map_or(loc.clone(), |(a, _)| a.to_string());
-                let kind = if why.contains("SIGKILL") || why.contains("SIGXCPU") {
+                let kind = if run.blocked {
+                    "blocked(no progress)".to_string()
+                } else if why.contains("SIGKILL") || why.contains("SIGXCPU") {
                     "hang-or-blowup(cpu limit)".to_string()
                 } else if run.stderr.contains("memory allocation") {
                     "memory-exhausted".to_string()
